@@ -192,7 +192,7 @@ class _G:
             cases = []
             for _ in range(self.draw(st.integers(1, 3))):
                 if self.p["case_option_preds"] and self.chance(0.5):
-                    p = self.pick(HELPER_PREDS)
+                    p = self.pick(["eq", "ne", "is_in", "one_of"] if self.p.get("total_preds") else HELPER_PREDS)
                     if p in ("is_in",):
                         arg = self.pick([{"k": "opt", "key": "L"}, {"k": "val", "v": [0, 1, "a", None]}])
                     elif p == "one_of":
@@ -202,7 +202,7 @@ class _G:
                                          {"k": "opt", "key": "T", "default": {"t": "const", "v": 1}}])
                     pred = {"p": p, "arg": arg}
                 else:
-                    pred = {"p": self.pick(PY_PREDS)}
+                    pred = {"p": self.pick(["is_none", "truthy", "is_str"] if self.p.get("total_preds") else PY_PREDS)}
                 cases.append([pred, self.node(d, hashable)])
             node = {"k": "case", "disp": disp, "cases": cases}
             if self.chance(0.6):
